@@ -270,7 +270,7 @@ def obligations(tier):
     # batch clause: reuse the C05 schema obligations on N = 2 points (independence of the other points, order kept)
     from . import C05
     for o in C05.obligations(tier):
-        if o.npts == 2 and o.independent:
+        if getattr(o, "npts", None) == 2 and getattr(o, "independent", False):
             o.id = o.id.replace('C05.schema', 'C06.batch')
             obs.append(o)
     return obs
